@@ -77,6 +77,39 @@ func genC03(g *Rng, tier string, emit func(Op)) {
 	for _, k := range pool {
 		emit(declKey(k))
 	}
+	// mirrored secrets, in memory (the wire format carries no negative numbers): a disclosure
+	// proof for secret s with randomiser r next to an issuance commitment for secret -s with
+	// randomiser -r. Each verifies for the joint challenge; their secret-key responses are r+cs and
+	// -(r+cs): different secrets, different responses, the list must fail.
+	for _, kp := range pool[:1] {
+		pk := kp.pk
+		s, rnd := randSecret(g), g.bits(int(pk.Params.LmCommit)-2)
+		ctx, nonce := g.bits(256), g.bits(128)
+		cred := issueCred(kp, s, []*big.Int{g.bits(60), g.bits(60)})
+		bD, err := cred.CreateDisclosureProofBuilder([]int{1}, nil, false)
+		if err != nil {
+			panic(err)
+		}
+		bU, err := gabi.NewCredentialBuilder(pk, ctx, new(big.Int).Neg(s), g.bits(128), nil, nil)
+		if err != nil {
+			panic(err)
+		}
+		c1, err1 := bD.Commit(map[string]*big.Int{"secretkey": rnd})
+		c2, err2 := bU.Commit(map[string]*big.Int{"secretkey": new(big.Int).Neg(rnd)})
+		if err1 == nil && err2 == nil {
+			c := gabi.VerifCreateChallenge(ctx, nonce, append(append([]*big.Int{}, c1...), c2...), false)
+			pl := gabi.ProofList{bD.CreateProof(c), bU.CreateProof(c)}
+			trees := proofListTrees(pl)
+			for _, kss := range [][]string{nil, {"ks", "ks"}} {
+				o := listOp([]*KeyPair{kp, kp}, trees, ctx, nonce, false, kss, "mirrored-secrets-in-memory", "reject")
+				o["direct"] = true
+				o["fkey"] = "C03/mirrored-secrets"
+				emit(o)
+			}
+			// control: each of them alone is a valid proof for the joint challenge's session? (no:
+			// the challenge covers both) - the honest same-secret pair is the control
+		}
+	}
 	secrets := []*big.Int{randSecret(g), randSecret(g), randSecret(g)}
 	for r := -3; r < rounds; r++ {
 		for n := 2; n <= 4; n++ {
